@@ -24,20 +24,23 @@ RISKY_TOKENS = ['$$$$', '>', '<', '$DTYPE', '$DATUM', '$MFMT', '$RFMT', '$MOL', 
                 '&gt;', ']]>', '<x>', '> <a>', '\\']
 
 
-def _load_file(name):
-    """Records of one of the repository's own files, read once per process with the real reader."""
-    if name in _file_cache:
-        return _file_cache[name]
+def _load_file(name, ct=False):
+    """Records of one of the repository's own files, read once per process with the real reader
+    (ct: cis/trans labels calculated from the 2D coordinates, the readers' calc_cis_trans option)."""
+    key = (name, bool(ct))
+    if key in _file_cache:
+        return _file_cache[key]
     from chython import SDFRead, RDFRead, MRVRead
     path = os.path.join(env.REPO, 'test', name)
     recs = []
     try:
+        kw = {'calc_cis_trans': True} if ct else {}
         if name.endswith('.sdf'):
-            r = SDFRead(path)
+            r = SDFRead(path, **kw)
         elif name.endswith('.rdf'):
-            r = RDFRead(path)
+            r = RDFRead(path, **kw)
         else:
-            r = MRVRead(path)
+            r = MRVRead(path, **kw)
         with r:
             while True:
                 try:
@@ -50,7 +53,7 @@ def _load_file(name):
                         break
     except Exception:
         pass
-    _file_cache[name] = recs
+    _file_cache[key] = recs
     return recs
 
 
@@ -77,9 +80,13 @@ def gen_mol_spec(rng, cfg, small=False):
     if r < cfg.get('file_share', 0.3) and not small:
         f = rng.choice(cfg.get('files') or FILES)
         spec = {'k': 'file', 'f': f, 'i': rng.randrange(400)}
+        if cfg.get('calc_ct'):
+            spec['ct'] = True
     elif small and r < cfg.get('file_share', 0.3):
         # members of reactions: small records that carry 2D coordinates and wedge bonds
-        spec = {'k': 'file', 'f': rng.choice(['isomorphism.sdf', 'isomorphism.sdf', 'mcs.sdf', 'hbonds.sdf']), 'i': rng.randrange(400)}
+        spec = {'k': 'file', 'f': rng.choice(['isomorphism.sdf', 'isomorphism.sdf', 'mcs.sdf', 'hbonds.sdf', 'stereo.sdf']), 'i': rng.randrange(400)}
+        if cfg.get('calc_ct'):
+            spec['ct'] = True
     else:
         spec = {'k': 'smi', 's': rng.choice(SMILES_POOL), 'edits': []}
         for _ in range(rng.choice([0, 0, 1, 1, 2, 3])):
@@ -127,7 +134,7 @@ def build_mol(spec):
     from chython import smiles
     from chython.containers import MoleculeContainer, ReactionContainer
     if spec['k'] == 'file':
-        recs = [r for r in _load_file(spec['f']) if r is not None]
+        recs = [r for r in _load_file(spec['f'], spec.get('ct')) if r is not None]
         if not recs:
             raise Unbuildable('no records in ' + spec['f'])
         rec = recs[spec['i'] % len(recs)]
@@ -241,14 +248,14 @@ def stereo_view(m):
             continue
         if n in m.stereogenic_tetrahedrons:
             if any(atoms[x].atomic_number == 1 for x in m._bonds[n]):
-                return None
+                return None   # explicit hydrogen on a stereo unit: the recorded asymmetry; labels that depend on it may go too
             env = m.stereogenic_tetrahedrons[n]
             out.append(('t', n, m._translate_tetrahedron_sign(n, sorted(env))))
         elif n in m.stereogenic_allenes:
             n0, n1, n2, n3 = m.stereogenic_allenes[n]
             t1, t2 = m._stereo_allenes_terminals[n]
             if any(atoms[x].atomic_number == 1 for t in (t1, t2) for x in m._bonds[t]):
-                return None
+                return None   # explicit hydrogen on a stereo unit: the recorded asymmetry; labels that depend on it may go too
             ea = min(x for x in (n0, n2) if x is not None)
             eb = min(x for x in (n1, n3) if x is not None)
             if t1 < t2:
@@ -257,6 +264,7 @@ def stereo_view(m):
                 out.append(('a', n, eb, ea, m._translate_allene_sign(n, eb, ea)))
         else:
             out.append(('?', n, a.stereo))
+    excluded_bonds = 0
     for (n, k), (n0, n1, n2, n3) in m.stereogenic_cis_trans.items():
         i, j = m._stereo_cis_trans_centers[n]
         if m._bonds[i][j].stereo is None:
@@ -268,7 +276,7 @@ def stereo_view(m):
         s = m._translate_cis_trans_sign(n, k, ea, eb)
         out.append(('ct',) + tuple(sorted([(n, ea), (k, eb)])) + (s,))
     labelled = sum(1 for *_, b in m.bonds() if b.stereo is not None)
-    if labelled != sum(1 for x in out if x[0] == 'ct'):
+    if labelled != sum(1 for x in out if x[0] == 'ct') + excluded_bonds:
         out.append(('?bonds', labelled))
     return sorted(out, key=repr)
 
